@@ -202,6 +202,20 @@ func (cl *cluster) serveAgent(n int, w http.ResponseWriter, req *http.Request) {
 		}
 		src := filepath.Join(cl.nodes[n].(*RealNode).dir, in.SrcFile)
 		dst := filepath.Join(cl.nodes[rcv.node].(*RealNode).dir, rcv.destFile)
+		if cl.failXfer && strings.HasSuffix(in.SrcFile, ".img") {
+			// the ssync sender dies after the receiver created the destination: a file of the right size without the data
+			cl.failXfer = false
+			if st, err := os.Stat(src); err == nil {
+				if f, err := os.OpenFile(dst, os.O_RDWR|os.O_CREATE, 0644); err == nil {
+					f.Truncate(st.Size())
+					f.Close()
+				}
+			}
+			cl.observe("agent transfer of a snapshot file -> node %d died half way (injected)", rcv.node)
+			cl.cnt["transfers_failed"]++
+			p.exit = 1
+			break
+		}
 		if err := transferFile(src, dst); err != nil {
 			cl.observe("agent transfer %s -> node %d failed: %v", in.SrcFile, rcv.node, err)
 			p.exit = 1
